@@ -62,8 +62,10 @@ impl<'a> PrettyPrinter<'a> {
         // For safety, we don't remove parentheses around idents. See `paren-in-key.typ`.
         // Nor around a number or keyword directly after a hash in markup or math (`embedded`).
         let expr = parenthesized.expr();
+        // Nor around a float written with a trailing dot (`(1.).abs()`): a dot after it would be read differently.
         let can_omit = ((expr.is_literal()
-            && !(embedded && expr.to_untyped().kind() != SyntaxKind::Str))
+            && !(embedded && expr.to_untyped().kind() != SyntaxKind::Str)
+            && !expr.to_untyped().text().ends_with('.'))
             || matches!(
                 expr.to_untyped().kind(),
                 SyntaxKind::Array
